@@ -124,6 +124,24 @@ func (c *segConn) frames() [][]byte {
 	return out
 }
 
+// takeFrames returns the complete frames written since the last call and forgets them.
+func (c *segConn) takeFrames() [][]byte {
+	c.mu.Lock()
+	defer c.mu.Unlock()
+	var out [][]byte
+	b := c.written
+	for len(b) >= 4 {
+		sz := int(uint32(b[0]) | uint32(b[1])<<8 | uint32(b[2])<<16 | uint32(b[3])<<24)
+		if sz < 7 || sz > len(b) {
+			break
+		}
+		out = append(out, append([]byte{}, b[:sz]...))
+		b = b[sz:]
+	}
+	c.written = append([]byte{}, b...)
+	return out
+}
+
 func sha8(b []byte) string {
 	h := md5.Sum(b)
 	return hex.EncodeToString(h[:4])
